@@ -1,8 +1,10 @@
 """Observation points installed in the *driver* process (no change to /repo needed)."""
 from __future__ import annotations
 
+import asyncio
 import contextlib
 import sys
+import threading
 import types
 import typing as t
 
@@ -152,3 +154,55 @@ class StepMeter:
 
     def __exit__(self, *a: t.Any) -> None:
         sys.settrace(None)
+
+
+class Hang(BaseException):
+    """A call into the library did not return within its wall-clock limit."""
+
+
+@contextlib.contextmanager
+def time_limit(seconds: float):
+    """Wall-clock guard for one call into the library (main thread only): a busy loop that neither reads, derives
+    keys nor yields to the event loop still ends, as Hang.  Nested guards keep the outer timer."""
+    import signal
+
+    if threading.current_thread() is not threading.main_thread():
+        yield
+        return
+
+    def on_alarm(signum, frame):  # noqa
+        raise Hang(f"no return within {seconds}s")
+
+    old = signal.signal(signal.SIGALRM, on_alarm)
+    prev = signal.setitimer(signal.ITIMER_REAL, seconds)
+    try:
+        yield
+    finally:
+        signal.setitimer(signal.ITIMER_REAL, 0)
+        signal.signal(signal.SIGALRM, old)
+        if prev[0] > 0:
+            signal.setitimer(signal.ITIMER_REAL, prev[0])
+
+
+class CountingReader(asyncio.StreamReader):
+    """StreamReader that turns a coroutine spinning on reads after EOF (never yielding to the loop) into Hang."""
+
+    budget = 5000
+
+    def __init__(self, *a: t.Any, **k: t.Any) -> None:
+        super().__init__(*a, **k)
+        self.eof_reads = 0
+
+    def _count(self) -> None:
+        if self.at_eof():
+            self.eof_reads += 1
+            if self.eof_reads > self.budget:
+                raise Hang("coroutine keeps reading after EOF without progress")
+
+    async def read(self, n: int = -1) -> bytes:
+        self._count()
+        return await super().read(n)
+
+    async def readexactly(self, n: int) -> bytes:
+        self._count()
+        return await super().readexactly(n)
